@@ -29,3 +29,7 @@ impl VErr {
 pub uninterp spec fn k_len() -> u16;
 #[verifier::external_body]
 pub fn key_len() -> (r: u16) ensures r == k_len() { unimplemented!() }
+
+// R11: `assert!(c)` is lowered to `if !(c) { vpanic(); }` — proving the call unreachable proves
+// that the assertion never fires.
+pub fn vpanic() requires false { }
